@@ -105,12 +105,28 @@ def models():
 
     from flowjax import flows
     maf = flows.masked_autoregressive_flow(jr.PRNGKey(1), base_dist=ds.Normal(jnp.zeros(2)), flow_layers=1, nn_width=4, invert=False)
+    cpl = flows.coupling_flow(jr.PRNGKey(2), base_dist=ds.Normal(jnp.zeros(3)), flow_layers=1, nn_width=4, invert=False)
+    pts = [jnp.asarray(v) for v in ([0.3, -0.2, 0.9], [-1.5, 0.4, 2.0], [0.0, 0.0, 0.0])]
 
-    def obs_maf(m):
-        J = np.asarray(jax.jacobian(lambda v: m.bijection.transform(v))(jnp.asarray([0.3, -0.2])))
-        # the layer's scales are the moduli of the (permuted) triangular Jacobian's pivots: |det J| = product of scales
-        return {"positive": bool(np.all(np.isfinite(J)) and abs(np.linalg.det(J)) > 0)}
-    out["masked_autoregressive_flow (min-scale affine)"] = (maf, ["positive"], obs_maf)
+    def obs_flow(m):
+        """the default transformer's scales are the diagonal of the first layer's Jacobian (autoregressive / coupling layer,
+        taken out of the factory's Scan by its public pytree structure): every one strictly positive"""
+        dim = m.shape[0]
+        try:
+            scan = m.bijection.bijection if type(m.bijection).__name__ == "Invert" else m.bijection
+            layer0 = jax.tree_util.tree_map(lambda l: l[0] if eqx.is_array(l) else l, scan.bijection)
+            core = layer0.bijections[0] if type(layer0).__name__ == "Chain" else layer0
+            assert type(core).__name__ in ("MaskedAutoregressive", "Coupling")
+        except Exception:  # noqa: BLE001     the layout of the factory's result is not part of the property
+            J = np.asarray(jax.jacobian(lambda v: m.bijection.transform(v))(pts[0][:dim]))
+            return {"positive": bool(np.all(np.isfinite(J)) and abs(np.linalg.det(J)) > 0)}
+        ok = True
+        for p in pts:
+            J = np.asarray(jax.jacobian(lambda v: core.transform(v))(p[:dim]))
+            ok = ok and bool(np.all(np.isfinite(J)) and np.all(np.diag(J) > 0))
+        return {"positive": ok}
+    out["masked_autoregressive_flow (min-scale affine)"] = (maf, ["positive"], obs_flow)
+    out["coupling_flow (min-scale affine)"] = (cpl, ["positive"], obs_flow)
     return out
 
 
@@ -120,10 +136,10 @@ def raw_leaves(model):
     return [i for i, l in enumerate(leaves) if eqx.is_inexact_array(l) and l.size > 0]
 
 
-def apply_update(model, upd):
+def apply_update(model, upd, wrap=True):
     leaves, td = jax.tree_util.tree_flatten(model)
     idx = raw_leaves(model)
-    i = idx[(upd["leaf"] - 1) % len(idx)]
+    i = idx[(upd["leaf"] - 1) % len(idx)] if wrap else idx[upd["leaf"] - 1]
     a = np.asarray(leaves[i]).copy()
     v = float(upd["v"])
     flat = a.reshape(-1)
@@ -176,6 +192,15 @@ def histories(rep: Report, hists: list, thorough: bool, rng: random.Random):
                 traces.append({"cfg": {"model": name, "dtype": variant, "relevant": relevant, "driver": "tlc-history", "hist": h,
                                        "cause": next((e["cause"] for e in ev if "cause" in e), "")}, "ev": ev})
                 rep.count(1, ("hist", name, variant, json.dumps(h)))
+        # every raw leaf on its own (the TLC histories address the first K leaves): set to each extreme of the box
+        for li in range(len(raw_leaves(model))):
+            for v in (-50, 50, -7, 12):
+                h = [{"leaf": li + 1, "mode": "all", "v": v}]
+                m = apply_update(model, h[0], wrap=False)
+                ev = [observe(name, model, relevant, obs), observe(name, m, relevant, obs)]
+                traces.append({"cfg": {"model": name, "dtype": "float64", "relevant": relevant, "driver": "single-leaf sweep", "hist": h,
+                                       "cause": next((e["cause"] for e in ev if "cause" in e), "")}, "ev": ev})
+                rep.count(1, ("sweep", name, li, v))
         # real optimisers with absurd learning rates
         for oi, opt in enumerate([optax.sgd(1e3), optax.adam(30.0), optax.sgd(-50.0)]):
             params, static = eqx.partition(model, eqx.is_inexact_array)
